@@ -73,16 +73,24 @@ def m_interp_empty(ex, callee, args, ret_ty, frame):
 
 def m_is_truthy(ex, callee, args, ret_ty, frame):
     v = models.deref(ex, args[0])
-    b = truthy_of(ex, v.vid)
+    b = truthy_of(ex, v.vid, v)
     ex.used["havocked"].add("CelValueDyn::is_truthy")
     ex.trace.append(Event("is_truthy", [v.vid], b))
     return VBool(b)
 
 
-def truthy_of(ex, vid):
+def truthy_of(ex, vid, value=None):
+    """uninterpreted truthiness of the value with identity `vid`, tied to what the property fixes
+    for every engine: Bool(b) is truthy iff b, null and failures are not truthy"""
     if vid not in ex.truthy_memo:
         ex.truthy_memo[vid] = z3.Bool(f"truthy@{vid}")
-    return ex.truthy_memo[vid]
+    t = ex.truthy_memo[vid]
+    if value is not None and isinstance(value, VAdt) and value.base() == "CelValue" and ("ax", vid) not in ex.truthy_memo:
+        ex.truthy_memo[("ax", vid)] = True
+        b = ex.adt_fields(value, ex.variant_index(value, "Bool"))[0]
+        ex.assume(z3.Implies(is_variant(ex, value, "Bool"), t == b.b))
+        ex.assume(z3.Implies(z3.Or(is_variant(ex, value, "Null"), is_variant(ex, value, "Err")), z3.Not(t)))
+    return t
 
 
 def m_into_keys(ex, callee, args, ret_ty, frame):
@@ -333,7 +341,7 @@ def quantifier(kind):
             r = body_result(F, evs, i)
             if A.ask(is_variant(ex, r, "Err")):
                 return Exp(("err_same", err_payload(ex, r).vid), want, f"body fails at element {i}")
-            t = A.ask(truthy_of(ex, ok_payload(ex, r).vid))
+            t = A.ask(truthy_of(ex, ok_payload(ex, r).vid, ok_payload(ex, r)))
             if kind == "all" and not t:
                 return Exp(("bool", False), want, f"falsy at {i}")
             if kind == "exists" and t:
@@ -366,7 +374,7 @@ def ref_filter(A, F):
         r = body_result(F, evs, i)
         if A.ask(is_variant(ex, r, "Err")):
             return Exp(("err_same", err_payload(ex, r).vid), want)
-        if A.ask(truthy_of(ex, ok_payload(ex, r).vid)):
+        if A.ask(truthy_of(ex, ok_payload(ex, r).vid, ok_payload(ex, r))):
             kept.append(eid)
     return Exp(("list", kept), want)
 
@@ -392,7 +400,7 @@ def ref_map(A, F):
             j += 1
             if A.ask(is_variant(ex, p, "Err")):
                 return Exp(("err_same", err_payload(ex, p).vid), want)
-            if not A.ask(truthy_of(ex, ok_payload(ex, p).vid)):
+            if not A.ask(truthy_of(ex, ok_payload(ex, p).vid, ok_payload(ex, p))):
                 continue
             want.append((c2, env))
         else:
@@ -535,7 +543,7 @@ def outcome_of(ex, model, r, style):
         return "null" if variant_name(ex, model, v) == "Null" else "value"
     if style == "value":
         return "value"
-    return ("truthy:" if z3.is_true(mval(model, truthy_of(ex, v.vid))) else "falsy:") + variant_name(ex, model, v)
+    return ("truthy:" if z3.is_true(mval(model, truthy_of(ex, v.vid, v))) else "falsy:") + variant_name(ex, model, v)
 
 
 def make_scenario(macro, F, style_of_code):
